@@ -173,6 +173,8 @@ package auth
 //@ func (BucketPolicyItem) Validate
 //@   pure
 //@   ensures {C14} [parts-valid] err == nil ==> bpi.Effect.Validate() == nil && bpi.Principals.Validate(iam) == nil && bpi.Resources.Validate(bucket) == nil
+// a statement that is accepted names at least one principal, one action and one resource (otherwise it matches nothing)
+//@   ensures {C14} [an-accepted-statement-has-principal-action-and-resource] err == nil ==> len(bpi.Principals) > 0 && len(bpi.Actions) > 0 && len(bpi.Resources) > 0
 //@   let kindOK = k == AllActions || ((isObjAct(k) ==> bpi.Resources.ContainsObjectPattern()) && (!isObjAct(k) ==> bpi.Resources.ContainsBucketPattern()))
 //@   at-return {C14} [every-action-checked] when err == nil :: ensures forall k Action :: in(k, bpi.Actions) ==> visited(bpi.Actions, k) && kindOK
 //@   loop 1 invariant {C14} [visited-actions-fit-resources] forall k Action :: visited(bpi.Actions, k) ==> kindOK
